@@ -453,3 +453,15 @@ V("C06.V.flavor.whole_message", "cobsflavor", "encode_all", {"C06": "D", "C20": 
   note="exec driver over the real flavour: pushing any message byte by byte and finalizing yields cobs(msg) ++ [0] - for every message length and every storage satisfying the contract")
 V("C06.V.flavor.try_extend", "cobsflavor", "Cobs::try_extend", {"C06": "S", "C20": "S"}, fns=["postcard::ser::flavors::<impl Flavor for Cobs<B>>::try_extend (only if an override exists)"],
   note="OPTIONAL item: absent on the pinned tree (trait default used); if an override appears it must equal byte-wise pushes", kind="O")
+
+# ---------------------------------------------------------------- varint readers, Route V (generic over the deserialization flavour contract)
+for w in ["u16", "u32", "u64", "u128", "usize"]:
+    V("C03.V.de.take_" + w, "devarint", "Deserializer::try_take_varint_" + w, {"C03": "D", "C04": "S", "C11": "S", "C01": "S"},
+      fns=["postcard::de::deserializer::Deserializer::try_take_varint_" + w], witness="C03.K.de.take_" + w,
+      note="for EVERY flavour satisfying the flavour contract and every input stream: result, bytes consumed (never one more) and error kind == wire-format decoder dec_<w> (bit form); no overflow / out-of-range shift")
+for w in ["u16", "u32", "u64", "u128"]:
+    V("C17.V.dyn.de.take_" + w, "dyndevarint", "try_take_varint_" + w, {"C17": "D", "C18": "D"},
+      fns=["postcard_dyn::de::varint::try_take_varint_" + w], witness=("C17.K.dyn.de_leaf." + w) if w != "u128" else None,
+      note="postcard-dyn's private reader == the SAME wire-format decoder spec dec_<w> as postcard's: same acceptance set, values, bytes consumed; no overflow / out-of-range shift")
+ASSUMPTIONS["C03"].append("Route V varint readers: the spec dec_<w> is the wire-format decoder in bit form (mirrors 7-bit little-endian groups); it is tied to an independently written arithmetic reference only through the Kani harnesses C03.K.de.take_*; try_take_varint_usize's `.map(|u| u as usize)` is dropped (identity on the 64-bit host)")
+ASSUMPTIONS["C17"].append("TakeExt::take_one is an external_body stub in unit dyndevarint; its contract is checked on the real code by Kani C17.K.dyn.take_ext")
